@@ -321,11 +321,10 @@ Print Assumptions C10_sync_async_same_source.
    3. concrete model (Model/Client.v): the four public functions compute unprotect_offline / protect_offline (value and cache
       afterwards) when no DC is reachable, and unprotect_online / protect_online (the same pipelines with the miss branch
       filled in by the network oracles) in general.
-   4. KeyCache.__init__, load_key, _store_key.  _store_key stores through an alias of an inner dictionary; the semantics is
-      single-owner, so the tie is for the store decision and the new innermost dictionary, NOT for `self` afterwards
-      (C10_flow_keycache_store_key_self states what the semantics does there).  KeyCache._get_key is refused by the
-      translator (subscript assignment through a call chain) and has no tie; both stay covered by k_cache_covers /
-      k_cache_store / k_cache_root_overwrites and the correspondence cache.histories.
+   4. KeyCache.__init__, load_key.  KeyCache._store_key and KeyCache._get_key store through aliases of inner dictionaries
+      (`seed_key = self._seed_keys.setdefault(..).setdefault(..)` ... `seed_key[key.l0] = key`): the flow semantics is
+      single-owner, the translator refuses both (fail closed) and they have no tie; they stay covered by the kernels
+      k_cache_covers / k_cache_store / k_cache_root_overwrites and the correspondence cache.histories.
    ---------------------------------------------------------------------------------------------------------------- *)
 From V Require Import Prelude.PyAst Prelude.PyAstMut Prelude.PyWorld gen.F_cache.
 From V Require Import Model.Types Model.Crypto Model.Gkdi Model.Client Flow.World_cache.
@@ -474,13 +473,4 @@ Theorem C10_flow_keycache_load_key : forall c r1 r2 r3 ns dns getkey fuel cc key
   = (let* rk := load_key_root key ver kalg kpar salg spar priv pub in Ok (VN, VO (OCache (cc_load cc rkid rk)))).
 Proof. exact flow_keycache_load_key. Qed.
 Print Assumptions C10_flow_keycache_load_key.
-Theorem C10_flow_keycache_store_key : forall c r1 r2 r3 ns dns getkey fuel cc sd e,
-  local_after "seed_key" (PyAst.exec_block (W c r1 r2 r3 ns dns getkey) fuel (pf_body k_flow_keycache_store_key) (store_key_env cc sd e))
-  = Ok (Some (VO (OSeedsRS (cc_seeds (cc_store_key cc sd e)) (gke_rkid e) sd))).
-Proof. exact flow_keycache_store_key. Qed.
-Print Assumptions C10_flow_keycache_store_key.
-Theorem C10_flow_keycache_store_key_self : forall c r1 r2 r3 ns dns getkey fuel cc sd e,
-  local_after "self" (PyAst.exec_block (W c r1 r2 r3 ns dns getkey) fuel (pf_body k_flow_keycache_store_key) (store_key_env cc sd e))
-  = Ok (Some (VO (OCache cc))).
-Proof. exact flow_keycache_store_key_self. Qed.
-Print Assumptions C10_flow_keycache_store_key_self.
+
